@@ -227,6 +227,11 @@ def pool_run(jobs: List[Job], asm, tk, logdir, time_scale=1.0):
     mem_used = [0]
     done = threading.Event()
 
+    def weight(job):
+        # `mem` is a CAP (RLIMIT_AS, also hit by the kani driver buffering CBMC's output); what a job
+        # really holds is well below it, so the pool accounts 60 % of the cap
+        return int(job.ob.mem_gb * 0.6) + 1
+
     def worker(job):
         try:
             run_job(job, asm, tk, logdir, time_scale)
@@ -234,7 +239,7 @@ def pool_run(jobs: List[Job], asm, tk, logdir, time_scale=1.0):
             job.status, job.reason = "INCONCLUSIVE", "runner error: %r" % (e,)
         with lock:
             running.remove(job)
-            mem_used[0] -= job.ob.mem_gb
+            mem_used[0] -= weight(job)
         sys.stderr.write("  [%s] %-44s %-12s %6.1fs %s\n" % (asm.pid, job.name, job.status, job.wall, job.reason[:100]))
         sys.stderr.flush()
         done.set()
@@ -245,14 +250,14 @@ def pool_run(jobs: List[Job], asm, tk, logdir, time_scale=1.0):
             while pending and len(running) < MAX_JOBS:
                 cand = None
                 for j in pending:
-                    if mem_used[0] + j.ob.mem_gb <= TOTAL_MEM_GB or not running:
+                    if mem_used[0] + weight(j) <= TOTAL_MEM_GB or not running:
                         cand = j
                         break
                 if cand is None:
                     break
                 pending.remove(cand)
                 running.append(cand)
-                mem_used[0] += cand.ob.mem_gb
+                mem_used[0] += weight(cand)
                 t = threading.Thread(target=worker, args=(cand,))
                 t.start()
                 threads.append(t)
